@@ -369,6 +369,20 @@ def raw_mix_grid(ck, tier):
     ck.notes["raw_mix_grid"] = {"programs": len(progs), "failing": len(bad)}
 
 
+def user_fn_name_grid(ck, tier):
+    """user expressions (default values) that call free functions named like EARLIER fields of the same item keep meaning the functions"""
+    mods = [(k, rf.default_shadow_module(k, entry)) for k, entry in enumerate(("attr", "derive"))]
+    res, failed = checks_run.run_modules(mods, "c13fn")
+    events = [{"ev": "compiles", "rustc_ok": bool(k in res and res[k][0].get("equal"))} for k, _ in mods]
+    n, bad, jst = dx.tlc_judge("Trace_Bounds", "Trace_Bounds.cfg", events, "c13fn")
+    ck.add_judge(n, jst)
+    for i in bad:
+        ck.violation({"family": "user_fn_name", "scheme": "locals", "entry": ("attr", "derive")[i], "codes": ",".join(sorted(set(d.get("code") or "?" for d in (failed.get(i) or []))))},
+                     {"what": "a default expression calling a free function named like an earlier field does not mean the function any more", "source": mods[i][1],
+                      "diagnostics": failed.get(i), "observed": res.get(i)})
+    ck.notes["user_fn_name_grid"] = {"programs": len(mods), "failing": len(bad)}
+
+
 PRIMS = set("bool char str u8 u16 u32 u64 u128 usize i8 i16 i32 i64 i128 isize f32 f64 core std alloc crate".split())
 
 
@@ -423,6 +437,7 @@ def c13(tier):
     user_expr_name_grid(ck, tier)
     user_type_name_grid(ck, tier)
     raw_mix_grid(ck, tier)
+    user_fn_name_grid(ck, tier)
     ck.cov["evaluations"] = ck.cov["traces_validated_against_impl"]
     ck.cov["distinct_nontrivial"] = len(ck.notes.get("events_per_family", {}))
     ck.cov["rule"] = ("every run-time family (clone, struct operators, impl operators, debug, default, deref, comparison sample) re-run under 4 renaming schemes "
